@@ -144,6 +144,20 @@ func propSpecs() map[string]*PropSpec {
 			}
 			r.modeB("derive", f, true, DefaultBounds)
 		}})
+	add(&PropSpec{ID: "C08", Title: "Generation is deterministic and independent of invocation context", Level: "other",
+		Outside: []string{"invocation context: other packages named in the same run, argument order, path spelling (go/loader behaviour)", "the text of generated function bodies", "more than 3 operations per table"},
+		RunFn: func(r *Runner) {
+			r.modeB("derive", "^VX_C08_", true, DefaultBounds)
+		}})
+	add(&PropSpec{ID: "C01", Title: "Successful generation yields a complete, type-correct package", Level: "other",
+		Outside: []string{"type-checks for EVERY program: only the corpus instantiations are generated and type-checked", "reflect/unsafe access path for unexported fields of imported structs"},
+		RunFn: func(r *Runner) {
+			f := "^VX_C01_.*_K2$"
+			if r.Tier == "thorough" {
+				f = "^VX_C01_"
+			}
+			r.modeB("derive", f, true, DefaultBounds)
+		}})
 	caseSpec := func(id, title string, f func(tier string) []CaseInst, outside []string) {
 		add(&PropSpec{ID: id, Title: title, PkgSize: 1, Outside: outside,
 			Corpus: func(tier string, seed int64) []Inst { return caseInsts(f(tier))(tier, seed) },
